@@ -50,7 +50,8 @@ def main():
     a = args()
     run = Run(PID, a.tier, level="exploration")
     thorough = a.tier == "thorough"
-    names = ["ct-default", "ct-int64"] + (["ct-int128struct", "ct-noasm", "ct-noasm-O1-clang"] if thorough else [])
+    # quick: the shipped configuration, the 32-bit-limb one and the 64-bit C (no asm) one - the three scalar/field code bases
+    names = ["ct-default", "ct-int64", "ct-noasm"] + (["ct-int128struct", "ct-noasm-O1-clang"] if thorough else [])
     exes = build_all(names)
     env = dict(os.environ)
     env.pop("LD_PRELOAD", None)
